@@ -13,7 +13,7 @@ from harness import protocol as P
 from harness import scenarios as S
 from harness import forge as F
 from harness import kernel as K
-from harness.world import State, World, HarnessError
+from harness.world import State, World, HarnessError, REQ_SENT_STATES
 
 from ref import codec as RC
 
@@ -233,7 +233,7 @@ def check_config(ci):
             sports = [1, 65535]
             protos = [e['proto']] if e['proto'] else [6, 17]
             for src, dst, sp, dp, pr in itertools.product(corners_src, corners_dst, sports[:1 if ck.quick else 2], dports, protos):
-                pres = ['none', 'established', 'established+half-open', 'given-up']
+                pres = ['none', 'established', 'established+half-open', 'given-up', 'established:childless:send-failed']
                 if any(x is not c and x['peer'] == c['peer'] for x in expect):
                     pres.append('sibling-established')      # an IKE_SA exists for ANOTHER connection with this peer address
                 for pre in pres:
@@ -304,6 +304,34 @@ def check_config(ci):
         w3._leave()
     if a3.kernel.spd or a3.kernel.sad:
         probs.append(('shutdown:not-flushed', 'after close(): %d policies, %d SAs' % (len(a3.kernel.spd), len(a3.kernel.sad))))
+    # --- shutdown while an IKE_SA is waiting for an answer (a CREATE_CHILD_SA request, a liveness check, an IKE_SA rekey in flight;
+    # initial exchanges half way): both tables are flushed all the same
+    for what in ('create-child-sa', 'liveness-check', 'ike-rekey', 'ike-sa-init', 'ike-auth'):
+        n_eval += 1
+        w5 = w.fork()
+        a5 = w5.endpoints['A']
+        w5.step(('acquire', 'A', 0, 0))
+        if what == 'ike-auth':
+            for _ in range(2):
+                if w5.net:
+                    w5.step(('deliver', w5.net[0].id))
+        elif what != 'ike-sa-init':
+            w5.deliver_all()
+            w5.step(('acquire', 'A', 0, 0) if what == 'create-child-sa' else ('due', 'A', 0, 'dpd' if what == 'liveness-check' else 'rekey_ike'))
+        if not a5.controller.ike_sas or int(a5.controller.ike_sas[0].state) not in [int(x) for x in REQ_SENT_STATES]:
+            probs.append(('shutdown:precondition:%s' % what, 'no request outstanding before the shutdown test'))
+            continue
+        w5.step(('sweep', 'A'))
+        w5._enter(a5)
+        try:
+            a5.controller.close()
+        except Exception as ex:   # noqa
+            probs.append(('shutdown:raises:%s:while-%s-outstanding' % (type(ex).__name__, what), 'close() raised %r while a %s request was outstanding' % (ex, what)))
+        finally:
+            w5._leave()
+        if a5.kernel.spd or a5.kernel.sad:
+            probs.append(('shutdown:not-flushed:while-%s-outstanding' % what, 'after close() with a %s request outstanding: %d policies, %d SAs' % (
+                what, len(a5.kernel.spd), len(a5.kernel.sad))))
     return probs, n_eval
 
 
@@ -326,6 +354,29 @@ def acquire_case(confs, addrs, expect, ci, ei, pol_index, src, dst, sport, dport
         half_open = True
     else:
         half_open = False
+    if pre == 'established:childless:send-failed':
+        # the IKE_SA with that peer has lost its CHILD_SA (hard expiry); the request an ACQUIRE produces on it cannot be sent
+        # (sendto fails), the retransmission timer sends it a moment later.  The IKE_SA is there all the time: the next ACQUIRE
+        # is negotiated on it
+        w.step(('acquire', 'A', ci, 0))
+        w.deliver_all()
+        est = [s for s in a.controller.ike_sas if s.state == State.ESTABLISHED and s.peer_addr == c['peer'] and s.my_addr == c['my']]
+        if not est or not est[0].child_sas:
+            return [('precondition', 'could not establish the first IKE_SA with the peer')]
+        w.step(('expire', 'A', bytes(est[0].child_sas[0].inbound_spi), True))
+        w.deliver_all()
+        if est[0].child_sas or est[0].state != State.ESTABLISHED:
+            return [('precondition', 'the hard expiry did not leave an established IKE_SA without CHILD_SAs')]
+        w.step(('sendfail', 'A', 0, 'ENETUNREACH'))
+        w.step(('acquire', 'A', ci, 0, 12, 0))
+        if not a.alive:
+            return [('dies:%s' % a.dead_reason[0], 'a failing sendto() killed the daemon: %s' % a.dead_reason[1])]
+        w.step(('tick', 2.1))
+        w.deliver_all()
+        pre = 'established-already'
+        n_before = len(a.controller.ike_sas)
+        if n_before != 1:
+            probs.append(('ike-sa-lost-after-send-failure', 'after the request of an ACQUIRE could not be sent A holds %d IKE_SAs' % n_before))
     if pre == 'given-up':
         # an IKE_SA with that peer existed and has been given up in the pass just before the one that reads the ACQUIRE
         # (the peer was unreachable): no IKE_SA exists any more, so a new one is negotiated
@@ -380,7 +431,7 @@ def acquire_case(confs, addrs, expect, ci, ei, pol_index, src, dst, sport, dport
     d = out[0]
     if d.dst != str(c['peer']) or d.src != str(c['my']):
         probs.append(('wrong-peer', 'first request goes %s -> %s, connection is %s -> %s' % (d.src, d.dst, c['my'], c['peer'])))
-    if pre == 'established':
+    if pre in ('established', 'established-already'):
         if d.data[18] != 36:
             probs.append(('ike-sa-not-reused', 'with an established IKE_SA the ACQUIRE produced exchange %d' % d.data[18]))
         if len(a.controller.ike_sas) != n_before:
